@@ -159,12 +159,12 @@ fn string_action_escape_case(token: &str, want: &[u8]) {
 //@ property: C10
 //@ tier: quick
 //@ encodes: the `String` semantic action of parser.lalrpop, escape::apply_string_escapes (escape loop)
-//@ sym: which of 13 concrete token texts (constant call sites chosen by the solver): the empty literal, plain bodies, every escape of the table alone, escaped quote and backslash, an unknown escape, an escape between plain characters, two escapes in a row
+//@ sym: which of 17 concrete token texts (constant call sites chosen by the solver): the empty literal, plain bodies, every escape of the table alone, escaped quote and backslash, an unknown escape, an escape between plain characters, two escapes in a row, multi-byte characters plain / escaped / next to an escape
 //@ oracle: the escape table of the language written out per case; never panics
 //@ bounds: concrete token texts only: a body with even one symbolic byte makes `contains('\\')` symbolic, both decoder paths are explored and the String grown under symbolic conditions does not get through CBMC's array post-processing (1 symbolic byte > 200 s; the empty body 6 s); unwind 9
 //@ replay: playback
 #[kani::proof]
-#[kani::unwind(9)]
+#[kani::unwind(12)]
 fn c10_k1_string_action_escapes() {
     let which: u8 = kani::any();
     match which {
@@ -180,7 +180,11 @@ fn c10_k1_string_action_escapes() {
         | 9 => string_action_escape_case("\"x\\\"\"", b"x\""),
         | 10 => string_action_escape_case("\"\"", b""),
         | 11 => string_action_escape_case("\"a\"", b"a"),
-        | _ => string_action_escape_case("\"abc\"", b"abc"),
+        | 12 => string_action_escape_case("\"abc\"", b"abc"),
+        | 13 => string_action_escape_case("\"\u{3bb}\"", "\u{3bb}".as_bytes()),
+        | 14 => string_action_escape_case("\"\\\u{3bb}\"", "\u{3bb}".as_bytes()),
+        | 15 => string_action_escape_case("\"a\\\u{1f642}b\"", "a\u{1f642}b".as_bytes()),
+        | _ => string_action_escape_case("\"\u{e9}\\n\"", "\u{e9}\n".as_bytes()),
     }
 }
 
